@@ -172,8 +172,10 @@ PROPS = {
         'title': 'Edits to a decoded map survive encode -> decode',
     },
     'C04': {
-        'families': [('fr_enc', ['FR-F5']), ('fr', ['FR-F2']), ('kt', ['KT-K3', 'KT-K4', 'KT-K5', 'KT-K7', 'KT-K8', 'KT-K10', 'KT-K13', 'KT-K14'])],
-        'floors': {'FR-F5': 10, 'FR-F2': 13, 'KT-K3': 30, 'KT-K4': 20, 'KT-K7': 6, 'KT-K8': 2, 'KT-K10': 6, 'KT-K13': 3, 'KT-K14': 10},
+        'families': [('fr_enc', ['FR-F5']), ('fr', ['FR-F2']), ('kt', ['KT-K3', 'KT-K4', 'KT-K5', 'KT-K7', 'KT-K8', 'KT-K10', 'KT-K13', 'KT-K14']),
+                     ('sc', ['SC-C04'])],
+        'floors': {'FR-F5': 10, 'FR-F2': 13, 'KT-K3': 30, 'KT-K4': 20, 'KT-K7': 6, 'KT-K8': 2, 'KT-K10': 6, 'KT-K13': 3, 'KT-K14': 10,
+                   'SC-C04': 1},
         'title': 'The encoder only emits text that its own decoder accepts (framing clause)',
     },
     'C05': {
